@@ -28,7 +28,7 @@ Start == /\ phase = "build" /\ Segs(P) = segs /\ IsAbs(P) = abs
          /\ UNCHANGED <<abs, segs, calls, ys>>
 
 Emit == PrintT(ToJson([k |-> "iter", fam |-> IF IsAsciiP THEN "both" ELSE "iri", p |-> P,
-                       calls |-> calls', yields |-> ys']))
+                       segs |-> segs, calls |-> calls', yields |-> ys']))
 
 CallFront == /\ phase = "iter" /\ Len(calls) < Len(segs) + 2
          /\ calls' = Append(calls, 0) /\ ys' = Append(ys, ItFront(P, it)) /\ it' = ItAfterFront(it)
